@@ -30,6 +30,7 @@ const (
 	locGlobal                // package-level variable
 	locArrIdx                // index into an array value stored at Parent
 	locGhost                 // ghost variable
+	locGField                // ghost field of a heap object (Ptr, Var)
 )
 
 type Loc struct {
@@ -264,6 +265,8 @@ func (e *Enc) load(h *Heap, l *Loc) string {
 		return fmt.Sprintf("(select (select %s %s) %s)", e.hget(h, e.S.elemVar(l.T)), l.Base, l.Index)
 	case locGlobal, locGhost:
 		return e.hget(h, l.Var)
+	case locGField:
+		return fmt.Sprintf("(select %s %s)", e.hget(h, l.Var), l.Ptr)
 	case locArrIdx:
 		return fmt.Sprintf("(select %s %s)", e.load(h, l.Parent), l.Index)
 	}
@@ -312,6 +315,8 @@ func (e *Enc) store(h *Heap, l *Loc, v string) {
 		e.hset(h, ev, fmt.Sprintf("(store %s %s (store (select %s %s) %s %s))", cur, l.Base, cur, l.Base, l.Index, v))
 	case locGlobal, locGhost:
 		e.hset(h, l.Var, v)
+	case locGField:
+		e.hset(h, l.Var, fmt.Sprintf("(store %s %s %s)", e.hget(h, l.Var), l.Ptr, v))
 	case locArrIdx:
 		e.store(h, l.Parent, fmt.Sprintf("(store %s %s %s)", e.load(h, l.Parent), l.Index, v))
 	}
@@ -339,7 +344,7 @@ func (e *Enc) heapVarsOfLoc(l *Loc) []string {
 		return e.heapVarsOfLoc(l.Parent)
 	case locElem:
 		return []string{e.S.elemVar(l.T)}
-	case locGlobal, locGhost:
+	case locGlobal, locGhost, locGField:
 		return []string{l.Var}
 	case locArrIdx:
 		return e.heapVarsOfLoc(l.Parent)
